@@ -334,6 +334,26 @@ func c09Table(e *c09Env) {
 		e.do(q, "")
 		e.restore()
 	}
+	// several handles on one path at a time: each is its own (closing one leaves the other alive)
+	for _, tgt := range []string{"f", "d"} {
+		open := vfPkt{Type: rfOpen, Path: tgt, Pflags: rfRead_}
+		use := vfPkt{Type: rfRead, Handle: "$h2", Off: 0, Len: 40}
+		if tgt == "d" {
+			open = vfPkt{Type: rfOpendir, Path: tgt}
+			use = vfPkt{Type: rfReaddir, Handle: "$h2"}
+		}
+		e.do(c09Req{p: open, reading: true, label: "two-handles/open-1/" + tgt}, "$h1")
+		e.do(c09Req{p: open, reading: true, label: "two-handles/open-2/" + tgt}, "$h2")
+		e.do(c09Req{p: vfPkt{Type: rfClose, Handle: "$h1"}, reading: true, label: "two-handles/close-1/" + tgt}, "")
+		e.do(c09Req{p: use, reading: true, label: "two-handles/use-2/" + tgt}, "")
+		e.do(c09Req{p: vfPkt{Type: rfFstat, Handle: "$h2"}, reading: true, label: "two-handles/fstat-2/" + tgt}, "")
+		e.do(c09Req{p: open, reading: true, label: "two-handles/open-3/" + tgt}, "$h3")
+		e.do(c09Req{p: vfPkt{Type: rfFstat, Handle: "$h3"}, reading: true, label: "two-handles/fstat-3/" + tgt}, "")
+		e.do(c09Req{p: vfPkt{Type: rfClose, Handle: "$h2"}, reading: true, label: "two-handles/close-2/" + tgt}, "")
+		e.do(c09Req{p: vfPkt{Type: rfClose, Handle: "$h3"}, reading: true, label: "two-handles/close-3/" + tgt}, "")
+		e.ro.hmap, e.rw.hmap = map[string]string{}, map[string]string{}
+		e.restore()
+	}
 	// two-name requests whose names are related: the same name twice, the same name spelled differently, and two
 	// spellings that are the same text after cleaning but not the same file (".." behind a link to a directory)
 	for _, pair := range [][2]string{{"f", "f"}, {"@./f", "f"}, {"@d/../f", "f"}, {"@d/up/../g", "d/g"}, {"d/g", "@d/up/../g"}, {"ldir/x", "d/x"}, {"@d/up/../../f", "f"}, {"@d/up/../g", "@d/up/../g"}} {
